@@ -304,6 +304,29 @@ func runC15(r *Run) {
 	cn.Done()
 
 	// ---- join
+	// ---- nothing Close waits for can be stuck in a write that only closing the connection ends
+	co := r.Rule("C15.closeorder", "Close closes the connection before it waits for a goroutine that writes to the connection (the collector's goroutine runs the retransmission path): a write that blocks until the connection is closed cannot keep Close from returning", 1)
+	if m.Close != nil {
+		var collClose, connClose ssa.Instruction
+		eachInstr(m.Close, func(b *ssa.BasicBlock, i int, in ssa.Instruction) {
+			if ifaceCallOnField(in, m.Collector, "Close") {
+				collClose = in
+			}
+			if ifaceCallOnField(in, m.Conn, "Close") {
+				connClose = in
+			}
+		})
+		if collClose == nil || connClose == nil {
+			co.Fail("Close", "collector or connection close not found in Client.Close")
+		} else {
+			co.Instance(fnName(m.Close), true, map[string]string{"collector_close": p.pos(instrPos(collClose)), "connection_close": p.pos(instrPos(connClose))})
+			if !instrDominates(connClose, collClose) {
+				co.Violation(m.Close, instrPos(collClose), "collector closed before the connection", "Close waits for the collector's goroutine while the connection is still open: if that goroutine sits in a retransmission Write that blocks (a peer that stopped reading), nothing releases it and Close never returns")
+			}
+		}
+	}
+	co.Done()
+
 	jn := r.Rule("C15.join", "every go statement of the library is preceded by Add on a WaitGroup, its function defers Done on it, and the owner's Close waits for it on every path after the stop signal; Client.Close also closes the collector and the agent on every path after setting closed", 4)
 	checkJoin(r, jn, m)
 	jn.Done()
